@@ -127,6 +127,7 @@ type Explorer struct {
 	WantPC         bool
 	MapOrders      bool
 	StoreMon       *storeMonitor
+	Guard          *setupGuard // set while bodies run on a heap that set-up built once
 }
 
 func NewExplorer(s *Solver) *Explorer {
@@ -163,6 +164,9 @@ func (e *Explorer) beginPath(prefix []Decision) {
 	e.pcInfeasible = false
 	e.logical, e.shardHash, e.shardDone = 0, 2166136261, false
 	e.stubLog = nil
+	e.StoreMon = nil // a monitor switched on by the previous path's body does not watch this path's set-up
+	e.PoolReuse = false
+	e.MapOrders = false
 	e.dom = map[string]bitset{}
 	e.entangled = map[string]bool{}
 	if e.S != nil {
